@@ -61,6 +61,7 @@ type vsAttempt struct {
 	advAfter  int           // after this many files
 	cutClass  string        // cut-eof: where in the multipart stream the body ended
 	cutInFile bool          // ... and whether that was inside the content of a file part
+	cutPart   int           // ... and the index of that part
 	committed bool          // the client got as far as calling Commit
 	extended  bool          // overlapped an extended-lane fault (SQL statement failure, crash-restart): restricted oracle
 }
@@ -165,7 +166,7 @@ func (e *vsEnv) setup(personality int) {
 	e.app.ViewURLBase = []string{"", "https://perf.example/search?q=upload:", "https://perf.example/100%/search?q=upload:"}[e.T.Intn(3, "view-url-base")]
 	mux := http.NewServeMux()
 	e.app.RegisterOnMux(mux)
-	e.tr = &simTransport{r: r, s: e.s, handler: mux, cuts: map[string]armedCut{}, lastCutClass: map[string]string{}, lastCutInFile: map[string]bool{}}
+	e.tr = &simTransport{r: r, s: e.s, handler: mux, cuts: map[string]armedCut{}, lastCutClass: map[string]string{}, lastCutInFile: map[string]bool{}, lastCutPart: map[string]int{}}
 	e.tr.chunkMax = []int{0, 0, 1, 7, 64, 1000}[e.T.Intn(6, "body-chunking")]
 	e.model = &vsModel{}
 	e.idsSeen = map[string]bool{}
@@ -368,6 +369,7 @@ func (e *vsEnv) upload(c *vsClient, a *vsAttempt) {
 		e.tr.mu.Lock()
 		a.cutClass = e.tr.lastCutClass[c.name]
 		a.cutInFile = e.tr.lastCutInFile[c.name]
+		a.cutPart = e.tr.lastCutPart[c.name]
 		delete(e.tr.cuts, c.name)
 		e.tr.mu.Unlock()
 	}
@@ -469,8 +471,12 @@ func (e *vsEnv) settle(attempts []*vsAttempt, faultsOn bool) {
 			}
 			// the body broke off inside the content of a file: that file was being written when the failure happened,
 			// however complete its last line looked to the server
-			if (a.fault.Kind == "cut" || a.fault.Kind == "cut-eof") && strings.HasSuffix(a.cutClass, "in-part-body") && a.cutInFile && !a.extended && len(created) > 0 {
-				f := created[len(created)-1]
+			for _, f := range created {
+				// (the server numbers the stored files by the index of their part; a server that had not created that
+				// file yet has nothing to remove, and the complete files before it may stay)
+				if !((a.fault.Kind == "cut" || a.fault.Kind == "cut-eof") && strings.HasSuffix(a.cutClass, "in-part-body") && a.cutInFile && !a.extended) || !strings.HasSuffix(f.name, fmt.Sprintf("/%d.txt", a.cutPart)) {
+					continue
+				}
 				vis := f.visible
 				if e.fs.inner != nil {
 					_, vis = onDisk[f.name]
